@@ -3,11 +3,99 @@ package main
 // Lifecycle steps of the C05 / C30 histories: close + reload of a persistent swamp.
 
 import (
+	"io"
 	"time"
+
+	hydrapb "github.com/hydraide/hydraide/sdk/go/hydraidego/v3/hydraidepbgo"
+	"google.golang.org/protobuf/proto"
+	"google.golang.org/protobuf/types/known/timestamppb"
+
+	"verifharness/rig"
 )
 
 func init() {
 	lifecycleOps["CloseReload"] = closeReload
+	extraOps["PatchMeta"] = patchMeta
+	extraOps["PatchExpired"] = patchExpired
+	extraOps["FilterExp"] = filterExp
+	extraResp["PatchMeta"] = func(line map[string]any, resp proto.Message, q Req) {
+		m := resp.(*hydrapb.PatchTreasuresResponse)
+		st := []string{}
+		for _, r := range m.GetResults() {
+			st = append(st, r.GetStatus().String())
+		}
+		if len(m.GetResults()) != 1 || m.Results[0].GetKey() != q.K {
+			line["err"] = "BadShape:results"
+		}
+		line["st"] = st
+	}
+	extraResp["PatchExpired"] = func(line map[string]any, resp proto.Message, q Req) {
+		m := resp.(*hydrapb.PatchExpiredTreasuresResponse)
+		pt := []map[string]any{}
+		for _, r := range m.GetPatched() {
+			pt = append(pt, map[string]any{"k": r.GetKey(), "st": r.GetStatus().String(), "ea": rankOfPB(r.ExpiredAt)})
+		}
+		line["pt"] = pt
+	}
+}
+
+// the msgpack body used by the patch calls: HydrAIDE's 2-byte magic prefix + an empty map
+func init() { bytesTab = append(bytesTab, []byte{0xC7, 0x00, 0x80}) } // id 5
+
+func metaOf(q Req) *hydrapb.PatchMeta {
+	m := &hydrapb.PatchMeta{ClearExpiredAt: q.Create} // "create" doubles as the clear flag of the abstract request
+	if q.Ea != 0 {
+		m.SetExpiredAt = timestamppb.New(tsOf(q.Ea))
+	}
+	if q.X != 0 {
+		s := userTab[q.X]
+		m.SetUpdatedBy = &s
+	}
+	return m
+}
+
+// PatchMeta: a meta-only PatchTreasures call on one key (no ops): set / slide / clear the expiry, set UpdatedBy
+func patchMeta(x *runner, sw string, q Req, line map[string]any) func() (proto.Message, error) {
+	line["k"], line["ea"], line["create"], line["x"] = q.K, q.Ea, q.Create, q.X
+	req := &hydrapb.PatchTreasuresRequest{IslandID: 1, SwampName: sw, Patches: []*hydrapb.TreasurePatch{{Key: q.K}}, Meta: metaOf(q)}
+	return func() (proto.Message, error) { return wireResp(x.r.GW.PatchTreasures(x.ctx, rig.Wire(req))) }
+}
+
+// PatchExpired: meta-only PatchExpiredTreasures (claim the expired records and slide / clear their expiry)
+func patchExpired(x *runner, sw string, q Req, line map[string]any) func() (proto.Message, error) {
+	line["n"], line["ea"], line["create"], line["x"] = q.N, q.Ea, q.Create, q.X
+	req := &hydrapb.PatchExpiredTreasuresRequest{IslandID: 1, SwampName: sw, HowMany: int32(q.N), Meta: metaOf(q)}
+	return func() (proto.Message, error) { return wireResp(x.r.GW.PatchExpiredTreasures(x.ctx, rig.Wire(req))) }
+}
+
+var filterOps = map[string]hydrapb.Relational_Operator{"eq": hydrapb.Relational_EQUAL, "ne": hydrapb.Relational_NOT_EQUAL,
+	"gt": hydrapb.Relational_GREATER_THAN, "ge": hydrapb.Relational_GREATER_THAN_OR_EQUAL, "lt": hydrapb.Relational_LESS_THAN,
+	"le": hydrapb.Relational_LESS_THAN_OR_EQUAL, "empty": hydrapb.Relational_IS_EMPTY, "notempty": hydrapb.Relational_IS_NOT_EMPTY}
+
+// FilterExp: GetByIndexStream over the key index (ascending) with one filter on ExpiredAt, through the
+// in-process gRPC server (the request and every streamed treasure cross the wire)
+func filterExp(x *runner, sw string, q Req, line map[string]any) func() (proto.Message, error) {
+	line["fop"], line["ea"] = q.Fop, q.Ea
+	f := &hydrapb.TreasureFilter{Operator: filterOps[q.Fop], CompareValue: &hydrapb.TreasureFilter_ExpiredAtVal{ExpiredAtVal: timestamppb.New(tsOf(q.Ea))}}
+	req := &hydrapb.GetByIndexStreamRequest{IslandID: 1, SwampName: sw, IndexType: hydrapb.IndexType_KEY, OrderType: hydrapb.OrderType_ASC,
+		Filters: &hydrapb.FilterGroup{Logic: hydrapb.FilterLogic_AND, Filters: []*hydrapb.TreasureFilter{f}}}
+	return func() (proto.Message, error) {
+		st, err := x.r.GRPC().GetByIndexStream(x.ctx, req)
+		if err != nil {
+			return nil, err
+		}
+		out := &hydrapb.GetByIndexResponse{}
+		for {
+			m, err := st.Recv()
+			if err == io.EOF {
+				return out, nil
+			}
+			if err != nil {
+				return nil, err
+			}
+			out.Treasures = append(out.Treasures, m.GetTreasure())
+		}
+	}
 }
 
 // closeReload makes the swamp leave memory and returns once that has been OBSERVED:
